@@ -7,8 +7,9 @@ let acc_draw = q_of_qq (QQ.of_ints 1 (1 lsl 40))   (* the scripted answer to eve
 
 let expo_delay (e : int) : q =
   (* positive dyadic delays of varied magnitude *)
-  let num = 1 + (e mod 16) in
-  let den = 1 lsl ((e / 16) mod 5) in
+  (* mostly short (so that several events fit before tmax), sometimes long *)
+  let num = if (e / 64) mod 8 = 0 then 1 + (e mod 16) else 1 + (e mod 3) in
+  let den = 1 lsl (1 + (e / 4) mod 5) in
   qi num den
 
 let flip_draw (p : q) (want_true : bool) (boundary : bool) : q option =
